@@ -833,6 +833,13 @@ func (c *SpecCtx) trCall(x *SCall) Term {
 		vc.U.ensureFun("runeSz", "(Str Int) Int")
 		a, b := c.tr(x.Args[0]), c.tr(x.Args[1])
 		return Term{"(" + specText(x.Fun) + " " + a.S + " " + b.S + ")", sortInt}
+	case "elem": // elem(s, x): x occurs in the list s (membership, with the concatenation lemma the engine's append(a, b...) needs)
+		sl, xv := c.tr(x.Args[0]), c.tr(x.Args[1])
+		if sl.Sort == nil || sl.Sort.Kind != KSlice {
+			return c.errorf("elem: not a list")
+		}
+		xv = c.coerce(xv, sl.Sort.Elem)
+		return Term{"(" + vc.U.ensureElem(sl.Sort) + " " + sl.S + " " + xv.S + ")", sortBool}
 	case "zeroof": // zeroof(T): the zero value of the (possibly generic) type T
 		_, zs := c.resolveType(specText(x.Args[0]))
 		if zs == nil {
